@@ -384,7 +384,7 @@ def capture_serve(args, env=None):
     return captured
 
 
-def effect_probe(make_chain, peers, requests, upload=None, handler_spec=None, settle=0.5, gaps=None):
+def effect_probe(make_chain, peers, requests, upload=None, handler_spec=None, settle=0.5, gaps=None, extra_reads=None):
     """Drive real GeminiServerProtocol connections (one per request) that share ONE middleware chain, one spy
     request handler and one upload handler, and report for every connection what the client was told and what
     was actually carried out: [(peer, request, status, handler_entries, upload_entries)].
@@ -405,7 +405,20 @@ def effect_probe(make_chain, peers, requests, upload=None, handler_spec=None, se
             n_h, n_u = len(h.calls), len(getattr(up, "calls", []))
             sim = ServerSim(lambda: GeminiServerProtocol(h, chain, up), peername=peer, loop=loop, log=log)
             sim.start()
-            sim.feed(req)
+            extra = extra_reads[i % len(extra_reads)] if extra_reads else None
+            if extra:
+                # further reads delivered back to back with the request, BEFORE the loop gets to run the chain's task
+                # (a trailing line end, stray bytes, a second record of the same TCP segment)
+                pieces = extra if isinstance(extra, (list, tuple)) else [extra]
+
+                def deliver(req=req, pieces=pieces):
+                    sim.transport.feed(req)
+                    for pc in pieces:
+                        sim.transport.feed(pc)
+
+                loop.do(deliver)
+            else:
+                sim.feed(req)
             # (bounded: a rate limiter's clean-up task keeps the loop busy forever, and its clock must not run away)
             loop.run_until(loop.time() + settle)
             if gaps and gaps[i % len(gaps)]:
